@@ -216,6 +216,17 @@ fn dump_one(rt: &Runtime<NoCtx>, path: &str, out_dir: &str) {
         }
         o.push(']');
     }
+    o.push_str("}, \"lir_meta\": {");
+    let lm = capture::LIR_META.lock().unwrap();
+    for (i, (n, lines)) in lm.iter().enumerate() {
+        if i > 0 { o.push_str(", "); }
+        o.push_str(&format!("{}: [", json_str(n)));
+        for (j, x) in lines.iter().enumerate() {
+            if j > 0 { o.push_str(", "); }
+            o.push_str(&json_str(x));
+        }
+        o.push(']');
+    }
     o.push_str("}, \"data\": {");
     let data = capture::DATA.lock().unwrap();
     for (i, (id, b)) in data.iter().enumerate() {
